@@ -1319,15 +1319,25 @@ func crashRunLocal(in *Sx) *Sx {
 	for _, c := range journal {
 		jsx = append(jsx, crashCmdSx(c))
 	}
+	// the session gauges / counters of the live broker at the end of the history (C20 on the redis backend:
+	// a gauge that wrapped below zero or a termination that never happened shows here)
+	gs := env.srv.StatsManager().GetGlobalStats().ConnectionStats
+	gauges := K("gauges", U(gs.ActiveCurrent), U(gs.InactiveCurrent),
+		U(gs.SessionTerminated.Normal), U(gs.SessionTerminated.Expired), U(gs.SessionTerminated.TakenOver))
 	env.stop()
 	if hung {
-		return L(K("steps", stepsOut...), K("journal", jsx...), K("prefixes"))
+		return L(K("steps", stepsOut...), K("journal", jsx...), K("prefixes"), gauges)
 	}
 	// ---- every prefix ----
 	prefixes := []*Sx{}
 	for k := 0; k <= len(journal); k++ {
 		st2 := newRespServer()
 		st2.LoadPrefix(journal, k)
+		if k%2 == 1 {
+			// every other cut: the broker had been running for two hours (twice the Session Expiry Interval of the
+			// scenarios) when it died; its sessions were connected or recently disconnected, none had expired
+			st2.BackdateSessions(7200)
+		}
 		e2, up := crashStart(st2)
 		ent := []*Sx{A("p"), I(k), K("up", Bool(up))}
 		if up {
@@ -1414,7 +1424,7 @@ func crashRunLocal(in *Sx) *Sx {
 		st2.Close()
 		prefixes = append(prefixes, L(ent...))
 	}
-	return L(K("steps", stepsOut...), K("journal", jsx...), K("prefixes", prefixes...))
+	return L(K("steps", stepsOut...), K("journal", jsx...), K("prefixes", prefixes...), gauges)
 }
 
 // journal entries of the broker: queue elements are decoded with times dropped (the model has
